@@ -12,12 +12,20 @@
   Batches, batch items and blocking tasks are NOT kinds of this model (their completion paths are C11 / the core machine).
 
   Debug options switched while the future is in flight (`Op.option`): COLLECT_PERF_STATS makes `AsyncTask._computed` run
-  `collect_perf_stats()` between "outcome stored" and "subscribers notified".  That step calls `to_str()`, which needs the
-  profiler id `_id` - a pure-Python AsyncTask only has one if profiling was on when it was CREATED, the compiled class
-  always - and the repr() of the task's arguments (an exception other than RuntimeError from there escapes).  Whether the
-  step can run for this task is the creation-time fact `Cfg.statsOk`.  If it cannot, it raises - inside a try/finally whose
-  finally notifies the subscribers, so the exception reaches whoever completes the task AFTER everybody was notified
-  (`hookExc`).
+  `collect_perf_stats()` between "outcome stored" and "subscribers notified".  Whether that step can run for this task is
+  the creation-time fact `Cfg.statsOk`.  On the current tree it always can (`_id` has a class-level default, `to_str()`
+  falls back to a description without arguments for every Exception their repr() raises); the harness PROBES this once per
+  worker and hands the result to the model, and the property theorem `C10_spec_holds_partial` has `statsOk` as a
+  hypothesis.  If the step cannot run (`statsOk = false`: an earlier tree, a mutation) it raises - inside a try/finally
+  whose finally notifies the subscribers, so the exception reaches whoever completes the task AFTER everybody was
+  notified (`hookExc`); the observer `spec` REJECTS that answer (the completing `value()` does not report the outcome).
+
+  Exceptions of subscribers (`FutureBase._computed`, futures.py:118-140): `on_computed.safe_trigger(self)` calls every
+  handler of a snapshot, remembers the FIRST exception a handler raised and re-raises it after the last handler;
+  `_computed` catches it (`except Exception as e`) and prints `repr(e)` - INSIDE the handler of the except clause.  An
+  Exception whose `repr()` raises (`Beh.raisingBad`) used to make `_computed` raise what `repr()` raised (`Exc.subRepr`)
+  into `set_value` / `set_error`; since the fix (`core_helpers.safe_repr(e)`) nothing escapes (`subEscapes = false`); the
+  observer `spec` still rejects such an answer with the clause `subscriber-exception-escapes`.
 -/
 namespace AsynqModel.Futures
 
@@ -42,7 +50,8 @@ inductive Exc where
   | alreadyComputed     -- FutureIsAlreadyComputed
   | notSubscribed       -- ValueError of `on_computed.unsubscribe(h)` for a handler that is not subscribed (list.remove)
   | notImplemented      -- FutureBase._compute of a future without provider (ConstFuture after reset_unsafe)
-  | hook                -- what AsyncTask.collect_perf_stats raised (AttributeError: no `_id` / the error of an argument's repr)
+  | hook                -- what AsyncTask.collect_perf_stats raised, if it cannot run for the task (`Cfg.statsOk = false`)
+  | subRepr             -- what `repr(e)` raised inside FutureBase._computed's `except Exception as e` (e = the first exception a subscriber raised)
   | other               -- anything else (never produced by the model; lets the driver parse any observation)
   deriving Repr, DecidableEq, Inhabited
 
@@ -57,7 +66,8 @@ inductive Res where
 /-- what an on_computed subscriber does WHILE it is being notified (after recording what it sees) -/
 inductive Beh where
   | good                 -- returns
-  | raising              -- raises an Exception
+  | raising              -- raises an Exception (one that can be printed)
+  | raisingBad           -- raises an Exception whose `repr()` raises an Exception
   | oneShot              -- `f.on_computed.unsubscribe(itself)`, then returns (the classic one-shot callback)
   | unsub (j : Nat)      -- `f.on_computed.unsubscribe(handler j)` (ValueError -> swallowed, if j is not subscribed)
   | resub (j : Nat)      -- `f.on_computed.subscribe(new well-behaved handler j)`
@@ -86,8 +96,7 @@ inductive Op where
 
 /-- how the future was created / what was switched on at that moment -/
 structure Cfg where
-  statsOk : Bool := true  -- AsyncTask: collect_perf_stats() can run: the task has a profiler id (`_id`: compiled build, or
-                          -- COLLECT_PERF_STATS on at creation) and repr() of its arguments does not raise
+  statsOk : Bool := true  -- AsyncTask: collect_perf_stats() can run for this task (probed by the harness on the tree under test)
   perf : Bool := false    -- COLLECT_PERF_STATS at creation
   deriving Repr, DecidableEq, Inhabited
 
@@ -110,7 +119,7 @@ structure Fut where
   subs : List Sub              -- on_computed.handlers, in subscription order
   runs : Nat                   -- how often the provider / task body ran
   alive : Bool                 -- AsyncTask: `_generator is not None`
-  statsOk : Bool := true       -- AsyncTask: `to_str()` works (`_id` exists - AsyncTask.__init__ sets it only `if COLLECT_PERF_STATS` -, args have a repr)
+  statsOk : Bool := true       -- AsyncTask: `collect_perf_stats()` can run (`Cfg.statsOk`)
   perf : Bool := false         -- `_debug.options.COLLECT_PERF_STATS` right now
   deriving Repr, DecidableEq, Inhabited
 
@@ -157,6 +166,30 @@ def applyBeh (subs : List Sub) (s : Sub) : List Sub :=
     round starts, every handler of the copy is called in order and edits the live list -/
 def afterNotify (subs : List Sub) : List Sub := subs.foldl applyBeh subs
 
+/-- does subscriber `s`, called while the LIVE handler list is `live`, raise an Exception out of the handler?
+    `none` = it returns; `some bad` = it raises, `bad` = repr() of that exception raises.  `unsubscribe` of a handler that
+    is not (no longer) in the live list is `list.remove` raising ValueError - inside the handler, so it counts. -/
+def behRaises (live : List Sub) (s : Sub) : Option Bool :=
+  match s.2 with
+  | .raising => some false
+  | .raisingBad => some true
+  | .oneShot => if hasSub live s.1 then none else some false
+  | .unsub j => if hasSub live j then none else some false
+  | _ => none
+
+/-- `safe_trigger`: walk the snapshot with the live list, return the FIRST exception raised (is it un-printable?) -/
+def firstRaise : List Sub → List Sub → Option Bool
+  | _, [] => none
+  | live, s :: ss =>
+    match behRaises live s with
+    | some b => some b
+    | none => firstRaise (applyBeh live s) ss
+
+/-- `FutureBase._computed`: `except Exception as e: print(... % core_helpers.safe_repr(e))` - does an exception leave
+    `_computed`?  After the fix: never (safe_repr catches what `repr(e)` raises); `firstRaise` stays as the description of
+    which exception `safe_trigger` re-raises. -/
+def subEscapes (_subs : List Sub) : Bool := false
+
 /-- what the observer EXPECTS of a re-entrant `set_value` / `set_error` made from inside a notification: refused -/
 def expInner : Beh → Option Res
   | .reenter _ => some (.raised .alreadyComputed)
@@ -189,9 +222,13 @@ def hookFails (f : Fut) : Bool := f.kind.isTask && f.perf && !f.statsOk
     finally clause has notified the subscribers -/
 def hookExc (f : Fut) : Option Exc := if hookFails f then some .hook else none
 
+/-- the exception that leaves `_computed` of this completion: the finally clause of AsyncTask._computed runs
+    FutureBase._computed, so what escapes from THERE (the subscribers' channel) replaces the exception of the perf-stats step -/
+def computedExc (f : Fut) : Option Exc := if subEscapes f.subs then some .subRepr else hookExc f
+
 /-- result of a `set_value` / `set_error` that was accepted -/
 def setRes (f : Fut) : Res :=
-  match hookExc f with
+  match computedExc f with
   | some x => .raised x
   | none => .unit
 
@@ -199,15 +236,19 @@ def setRes (f : Fut) : Res :=
 def compute (f : Fut) : Fut × List Cb × Option Exc :=
   match f.kind with
   | .lazyOk v =>
+    -- Future._compute: `try: self.set_value(provider()) except Exception as error: self.set_error(error); raise` - what
+    -- escapes from set_value's `_computed` is caught there, set_error finds the future computed and raises
     let (f', cbs) := complete { f with runs := f.runs + 1 } (.val v)
-    (f', cbs, none)
-  | .lazyErr e =>   -- Future._compute: set_error(error); raise
+    (f', cbs, if subEscapes f.subs then some .alreadyComputed else none)
+  | .lazyErr e =>   -- Future._compute: set_error(error); raise - what escapes from set_error's `_computed` replaces the `raise`
     let (f', cbs) := complete { f with runs := f.runs + 1 } (.err e)
-    (f', cbs, some (.user e))
+    (f', cbs, if subEscapes f.subs then some .subRepr else some (.user e))
   | .const _ | .error _ | .errorNone => (f, [], some .notImplemented)
   | .lazySelfSet v _ =>
     -- the provider calls set_value(v) on the future (subscribers notified with v); `set_value(provider())` then raises
     -- FutureIsAlreadyComputed, the handler's set_error raises it again: the first outcome stays, the call raises
+    -- (if a subscriber's exception escapes from the provider's set_value, the provider raises that instead of returning:
+    -- `except Exception: self.set_error(..)` raises FutureIsAlreadyComputed all the same)
     let (f', cbs) := complete { f with runs := f.runs + 1 } (.val v)
     (f', cbs, some .alreadyComputed)
   | .taskOk v =>
@@ -215,17 +256,17 @@ def compute (f : Fut) : Fut × List Cb × Option Exc :=
     -- _continue, the scheduler and value()
     if f.alive then
       let (f', cbs) := complete { f with runs := f.runs + 1 } (.val v)
-      (f', cbs, hookExc f)
+      (f', cbs, computedExc f)
     else  -- generator already closed: _continue_on_generator raises StopIteration, value None
       let (f', cbs) := complete f (.val 0)
-      (f', cbs, hookExc f)
+      (f', cbs, computedExc f)
   | .taskErr e =>
     if f.alive then
       let (f', cbs) := complete { f with runs := f.runs + 1 } (.err e)
-      (f', cbs, hookExc f)
+      (f', cbs, computedExc f)
     else
       let (f', cbs) := complete f (.val 0)
-      (f', cbs, hookExc f)
+      (f', cbs, computedExc f)
 
 def readValue (o : Outc) : Res :=
   match o with
@@ -316,24 +357,14 @@ structure Watch where
   subs : List Sub              -- subscribers the observer registered (non-sinking futures), with what they do
   runs : Nat                   -- how often the provider / task body had run after the previous observation
   done : Bool                  -- a completion has been observed (an AsyncTask has then lost its generator for good)
-  statsOk : Bool := true         -- how the future was created (`Cfg`)
-  perf : Bool := false         -- COLLECT_PERF_STATS as the observer's own `option` operations left it
   deriving Repr, DecidableEq, Inhabited
 
-def watchInit (k : Kind) (c : Cfg := {}) : Watch :=
+def watchInit (k : Kind) : Watch :=
   match k with
-  | .const v => { known := some (.val v), subs := [], runs := 0, done := false, statsOk := c.statsOk, perf := c.perf }
-  | .error e => { known := some (.err e), subs := [], runs := 0, done := false, statsOk := c.statsOk, perf := c.perf }
-  | .errorNone => { known := some (.val 0), subs := [], runs := 0, done := false, statsOk := c.statsOk, perf := c.perf }
-  | _ => { known := none, subs := [], runs := 0, done := false, statsOk := c.statsOk, perf := c.perf }
-
-/-- may the operation that completes the future hand the exception of the failing perf-stats step to its caller?
-    (only an AsyncTask whose perf-stats step cannot run, completed while COLLECT_PERF_STATS is on; the statement says nothing about
-    what the completer gets then - C20 does - but outcome and notifications are judged as always) -/
-def hookMay (k : Kind) (w : Watch) : Bool := k.isTask && w.perf && !w.statsOk
-
-/-- the result of an accepted `set_value` / `set_error` -/
-def setResOk (k : Kind) (w : Watch) (r : Res) : Bool := r == .unit || (hookMay k w && r == .raised .hook)
+  | .const v => { known := some (.val v), subs := [], runs := 0, done := false }
+  | .error e => { known := some (.err e), subs := [], runs := 0, done := false }
+  | .errorNone => { known := some (.val 0), subs := [], runs := 0, done := false }
+  | _ => { known := none, subs := [], runs := 0, done := false }
 
 /-- the outcome the future's OWN computation (provider / task body) produces; none = the kind has no computation -/
 def Kind.natural : Kind → Option Outc
@@ -374,10 +405,12 @@ def readOk (op : Op) (r : Res) (o : Outc) : Bool :=
   | _ => false
 
 /-- the result of the read that RAN the computation (outcome `o` stored by it).  Besides the plain report of `o` the
-    statement leaves two answers open, each for ONE kind of future only:
-    * a `Future` whose provider raised `e`: `error()` may raise `e` instead of returning it (Future._compute re-raises);
-    * a `Future` that somebody completed while its provider was running: the read may raise FutureIsAlreadyComputed
-      (the provider's own result is refused; the FIRST outcome stays). -/
+    observer accepts two answers of the code, each for ONE kind of future only (both listed in ASSUMPTIONS of c10.py):
+    * a `Future` whose provider raised `e`: the computing `error()` may RAISE `e` instead of returning it
+      (Future._compute re-raises; the same outcome through the other channel; every later `error()` returns it);
+    * a `Future` whose provider completed the future itself while it was running (outside the quantifier "providers that
+      return or raise"): the computing read may raise FutureIsAlreadyComputed (the provider's own result is refused; the
+      FIRST outcome stays and every later read reports it). -/
 def freshReadOk (k : Kind) (op : Op) (r : Res) (o : Outc) : Bool :=
   readOk op r o ||
   match k with
@@ -387,10 +420,17 @@ def freshReadOk (k : Kind) (op : Op) (r : Res) (o : Outc) : Bool :=
 
 /-- a read of an uncomputed future that left it computed with `o`: did the computation run exactly once and is `o` its
     outcome?  (An AsyncTask has one generator: once it has been completed - by its body or from outside - a read after
-    `reset_unsafe()` cannot run the body again; it completes the task with None without running anything.) -/
+    `reset_unsafe()` cannot run the body again; it completes the task with None without running anything.  The statement
+    is silent about reads after `reset_unsafe()`; this clause pins today's answer - see ASSUMPTIONS.) -/
 def computeOk (k : Kind) (w : Watch) (ob : Obs) (o : Outc) : Bool :=
   if k.isTask && w.done then ob.runs == w.runs && o == .val 0
   else ob.runs == w.runs + 1 && k.natural == some o
+
+/-- what the computing read of a future of kind `k` raises when the exception of a subscriber escapes from `_computed`
+    (Future._compute turns it into FutureIsAlreadyComputed for a returning provider, see `compute`) -/
+def Kind.escRead : Kind → Exc
+  | .lazyOk _ | .lazySelfSet _ _ => .alreadyComputed
+  | _ => .subRepr
 
 /-- `unsubscribe`: an unsubscribed handler is forgotten (it must not be notified by later completions); unsubscribing
     a handler that is not subscribed raises and changes nothing -/
@@ -399,9 +439,39 @@ def unsubStep (k : Kind) (w : Watch) (id : Nat) (r : Res) : Except String Watch 
   else if hasSub w.subs id then (if r == .unit then .ok { w with subs := eraseSub w.subs id } else .error "unsubscribe")
   else (if r == .raised .notSubscribed then .ok w else .error "unsubscribe")
 
+/-- an accepted `set_value` / `set_error` with outcome `o` on a future the observer knows uncomputed: nothing ran, the
+    future holds `o`, every subscriber was notified, and the call RETURNED.  The one wrong answer that gets a name of its
+    own is the defect the model mirrors: the tracked subscribers predict that the first exception raised in the round cannot
+    be printed (`subEscapes`) AND the call raised exactly what `repr()` raised, everything else being right. -/
+def setStep (w : Watch) (ob : Obs) (o : Outc) : Except String Watch :=
+  if ob.runs != w.runs then .error "provider-once"
+  else if ob.after != some o then .error "set"
+  else if !notifiedAll w.subs ob.cbs o then .error "notify-once"
+  else if ob.res == .unit then .ok { w with known := some o, subs := afterNotify w.subs, done := true }
+  else if subEscapes w.subs && ob.res == .raised .subRepr then .error "subscriber-exception-escapes"
+  else .error "set"
+
+/-- a read (`value()`, call, `error()`) of a future the observer knows uncomputed -/
+def readStep (k : Kind) (w : Watch) (ob : Obs) : Except String Watch :=
+  match ob.after with
+  | some o =>
+    if ob.runs != w.runs && ob.runs != w.runs + 1 then .error "provider-once"
+    else if !computeOk k w ob o then .error "compute-outcome"
+    else if !notifiedAll w.subs ob.cbs o then .error "notify-once"
+    else if freshReadOk k ob.op ob.res o then .ok { w with known := some o, subs := afterNotify w.subs, done := true }
+    else if subEscapes w.subs && ob.res == .raised k.escRead then .error "subscriber-exception-escapes"
+    else .error "compute-read"
+  | none =>
+    -- only a future that has no computation (ConstFuture/ErrorFuture after reset_unsafe) may stay uncomputed
+    if ob.runs != w.runs then .error "provider-once"
+    else if k.sinking && ob.res == .raised .notImplemented && ob.cbs.isEmpty then .ok w
+    else .error "compute-completes"
+
 /-- one observation against the watch state; returns the clause that fails.  EVERY branch fixes the number of runs of
     the computation relative to the previous observation: it grows (by exactly one) only in a read that finds the future
-    uncomputed. -/
+    uncomputed.  (Sinking kinds - ConstFuture / ErrorFuture, whose `on_computed` is qcore's SinkingEventHook - never get a
+    subscriber registered: after `reset_unsafe()` a `set_value` on them has to notify NOBODY.  That pins today's code; the
+    statement does not speak about subscribing to a sinking hook - see ASSUMPTIONS.) -/
 def watchStep (k : Kind) (w : Watch) (ob : Obs) : Except String Watch :=
   match w.known with
   | some o =>
@@ -431,9 +501,8 @@ def watchStep (k : Kind) (w : Watch) (ob : Obs) : Except String Watch :=
       then .ok w else .error "reads-stable"
     | .inspect =>
       if ob.res == .unit && ob.after == some o && ob.cbs.isEmpty then .ok w else .error "reads-stable"
-    | .option d on =>
-      if ob.res == .unit && ob.after == some o && ob.cbs.isEmpty then
-        .ok { w with perf := if d == .perfStats then on else w.perf } else .error "option-changes-future"
+    | .option _ _ =>
+      if ob.res == .unit && ob.after == some o && ob.cbs.isEmpty then .ok w else .error "option-changes-future"
   | none =>
     match ob.op with
     | .reset =>
@@ -457,46 +526,16 @@ def watchStep (k : Kind) (w : Watch) (ob : Obs) : Except String Watch :=
       if ob.runs != w.runs then .error "provider-once"
       else if ob.res == .unit && ob.after == none && ob.cbs.isEmpty then .ok w
       else .error "reads-stable"
-    | .option d on =>
+    | .option _ _ =>
       if ob.runs != w.runs then .error "provider-once"
-      else if ob.res == .unit && ob.after == none && ob.cbs.isEmpty then
-        .ok { w with perf := if d == .perfStats then on else w.perf } else .error "option-changes-future"
-    | .setValue v =>
-      if ob.runs != w.runs then .error "provider-once"
-      else if setResOk k w ob.res && ob.after == some (.val v) then
-        if notifiedAll w.subs ob.cbs (.val v) then
-          .ok { w with known := some (.val v), subs := afterNotify w.subs, done := true }
-        else .error "notify-once"
-      else .error "set"
-    | .setError e =>
-      if ob.runs != w.runs then .error "provider-once"
-      else if setResOk k w ob.res && ob.after == some (.err e) then
-        if notifiedAll w.subs ob.cbs (.err e) then
-          .ok { w with known := some (.err e), subs := afterNotify w.subs, done := true }
-        else .error "notify-once"
-      else .error "set"
+      else if ob.res == .unit && ob.after == none && ob.cbs.isEmpty then .ok w else .error "option-changes-future"
+    | .setValue v => setStep w ob (.val v)
+    | .setError e => setStep w ob (.err e)
     | .setErrorNone =>
       -- `set_error(None)`: None is the library's "no error", the future is completed with the VALUE None - one
       -- consistent outcome all the same (error() = None, value() = None)
-      if ob.runs != w.runs then .error "provider-once"
-      else if setResOk k w ob.res && ob.after == some (.val 0) then
-        if notifiedAll w.subs ob.cbs (.val 0) then
-          .ok { w with known := some (.val 0), subs := afterNotify w.subs, done := true }
-        else .error "notify-once"
-      else .error "set"
-    | .value | .call | .error =>
-      match ob.after with
-      | some o =>
-        if ob.runs != w.runs && ob.runs != w.runs + 1 then .error "provider-once"
-        else if !computeOk k w ob o then .error "compute-outcome"
-        else if !(freshReadOk k ob.op ob.res o || (hookMay k w && ob.res == .raised .hook)) then .error "compute-read"
-        else if !notifiedAll w.subs ob.cbs o then .error "notify-once"
-        else .ok { w with known := some o, subs := afterNotify w.subs, done := true }
-      | none =>
-        -- only a future that has no computation (ConstFuture/ErrorFuture after reset_unsafe) may stay uncomputed
-        if ob.runs != w.runs then .error "provider-once"
-        else if k.sinking && ob.res == .raised .notImplemented && ob.cbs.isEmpty then .ok w
-        else .error "compute-completes"
+      setStep w ob (.val 0)
+    | .value | .call | .error => readStep k w ob
 
 def watchRun (k : Kind) (w : Watch) : List Obs → Except String Watch
   | [] => .ok w
@@ -505,14 +544,15 @@ def watchRun (k : Kind) (w : Watch) : List Obs → Except String Watch
     | .ok w' => watchRun k { w' with runs := ob.runs } obs
     | .error e => .error (e ++ "@" ++ ob.op.name)
 
-/-- `Spec.C10`: the whole history is accepted -/
-def spec (k : Kind) (obs : List Obs) (c : Cfg := {}) : Bool :=
-  match watchRun k (watchInit k c) obs with
+/-- `Spec.C10`: the whole history is accepted.  (The observer does not depend on how the future was created: no debug
+    option and no creation-time fact changes what it accepts.) -/
+def spec (k : Kind) (obs : List Obs) : Bool :=
+  match watchRun k (watchInit k) obs with
   | .ok _ => true
   | .error _ => false
 
-def specClause (k : Kind) (obs : List Obs) (c : Cfg := {}) : String :=
-  match watchRun k (watchInit k c) obs with
+def specClause (k : Kind) (obs : List Obs) : String :=
+  match watchRun k (watchInit k) obs with
   | .ok _ => "ok"
   | .error e => e
 
